@@ -40,6 +40,7 @@ type fileShape struct {
 	Trailing  int  // blank lines at the end of the file
 	NoFinalNL bool // last line without end-of-line
 	PlusID    bool // fastq: '+' line repeats the identifier
+	Solexa    bool // fastq: quality characters are score + 64 (read with --solexa)
 	JSONHead  bool // fasta/fastq: annotations as a JSON header
 	OBIHead   bool // fasta/fastq: annotations as "key=value;" pairs (the historical OBITools header)
 }
@@ -158,6 +159,9 @@ func renderFile(fc *fileCase) {
 				q := make([]byte, len(r.Qual))
 				for j, v := range r.Qual {
 					q[j] = v + 33
+					if sh.Solexa {
+						q[j] = v + 64
+					}
 				}
 				lines = append(lines, string(q))
 			}
